@@ -342,7 +342,11 @@ class SimulatorBase(
                 )
                 for q in qubits:
                     args_map[q] = args
-            args_map[None] = self._create_partial_simulation_state(0, (), classical_data)
+                if not qubits:
+                    # The given state of a qubit-less system belongs to the qubit-less part.
+                    args_map[None] = args
+            if None not in args_map:
+                args_map[None] = self._create_partial_simulation_state(0, (), classical_data)
             return SimulationProductState(
                 args_map, qubits, self._split_untangled_states, classical_data=classical_data
             )
